@@ -24,7 +24,7 @@
   Message identity: the check generates pairwise distinct bodies within a case.
 -/
 import NngModel.Proto.Base
-import NngModel.Generated.Consts
+import NngModel.Generated.C09
 namespace Nng.BusSpec
 open Nng Nng.Proto
 
